@@ -315,3 +315,39 @@ func (s *Stepper) Close() {
 		s.release.Close()
 	}
 }
+
+// LockHolder is a helper process holding raw POSIX locks on SQLite's lock bytes.
+type LockHolder struct {
+	cmd *exec.Cmd
+	in  interface{ Close() error }
+	Pid int
+}
+
+// StartLockHolder holds the locks in spec ("shared:RD,pending:WR", ...) on path from another process.
+func StartLockHolder(path, spec string) (*LockHolder, error) {
+	cmd := exec.Command(PythonExe(), "-u", filepath.Join(VerifDir(), "py", "lockholder.py"), path, spec)
+	in, err := cmd.StdinPipe()
+	if err != nil {
+		return nil, err
+	}
+	out, err := cmd.StdoutPipe()
+	if err != nil {
+		return nil, err
+	}
+	if err := cmd.Start(); err != nil {
+		return nil, err
+	}
+	rd := bufio.NewReader(out)
+	line, err := rd.ReadString('\n')
+	if err != nil || !strings.HasPrefix(line, "READY") {
+		cmd.Process.Kill()
+		cmd.Wait()
+		return nil, fmt.Errorf("lock holder did not get its locks (%q, %v)", line, err)
+	}
+	return &LockHolder{cmd: cmd, in: in, Pid: cmd.Process.Pid}, nil
+}
+
+func (l *LockHolder) Release() {
+	l.in.Close()
+	l.cmd.Wait()
+}
